@@ -7,7 +7,7 @@ BASE_WEIGHTS = {
     'CreateTrial': 4, 'SuggestTrials': 8, 'GetTrial': 1, 'ListTrials': 1,
     'AddTrialMeasurement': 4, 'CompleteTrial': 7, 'StopTrial': 3, 'DeleteTrial': 2,
     'CheckES': 2, 'UpdateMetadata': 4, 'ListOptimalTrials': 2, 'GetOperation': 1,
-    'Advance': 1, 'ClockFault': 1, 'M:es-recycle': 1, 'M:delete-recreate': 1, 'M:pool': 1, 'M:es-delete-recreate': 1, 'M:huge-ties': 1,
+    'Advance': 1, 'ClockFault': 1, 'M:es-recycle': 1, 'M:delete-recreate': 1, 'M:pool': 1, 'M:es-delete-recreate': 1, 'M:huge-ties': 1, 'M:auto-final': 1,
 }
 
 TRIAL_PREFS = ['active', 'active', 'mutable', 'any', 'any', 'completed', 'requested',
@@ -145,6 +145,17 @@ def gen_macro(rng, kind, p):
             ['DeleteTrial', {'study': ss, 'trial': {'pref': 'max', 'i': 0}}],
             ['SuggestTrials', {'study': ss, 'n': 2, 'worker': w}],
             ['CheckES', {'study': ss, 'trial': {'pref': 'max', 'i': 0}}]]
+  if kind == 'M:auto-final':
+    # several intermediate measurements (step counts in any order), then a completion that lets the
+    # service pick the final measurement itself
+    ss = {'o': 0, 'd': 0}
+    t = {'pref': 'max', 'i': 0}
+    out = [['SuggestTrials', {'study': ss, 'n': 1, 'worker': rng.randrange(p.get('workers', 2))}]]
+    for _ in range(rng.choice([2, 2, 3])):
+      out.append(['AddTrialMeasurement', {'study': ss, 'trial': t, 'v': rng.randrange(10), 'w': rng.randrange(10),
+                                          'step': rng.randrange(5), 'perm': rng.random() < 0.3}])
+    out.append(['CompleteTrial', {'study': ss, 'trial': t, 'ckind': 'auto', 'v': 0, 'w': 0, 'reason': 'bad'}])
+    return out
   if kind == 'M:huge-ties':
     # two trials tie on a huge value of one metric and differ a little on the other: the sums of their
     # objectives are equal in floating point although one dominates the other
